@@ -536,3 +536,32 @@ def make_expr_item(n):
 
 OBLIGATIONS.append(Ob('sort_expr_item_n3', make_expr_item(3), timeout=tier(250, 900), data='3 unbounded int elements / tuple keys; bits: value of sort_expr is "sequence-item" or "", elements are 2-tuples',
                       selectors='sort_expr="sk" evaluating to the element sort'))
+
+T_ITEM_DESC = cooked('<dtml-in seq sort="sequence-item/cmp/desc"><dtml-call "rec(_[\'sequence-item\'])"></dtml-in>')
+T_EMPTY_DESC = cooked('<dtml-in seq sort="/cmp/desc"><dtml-call "rec(_[\'sequence-item\'])"></dtml-in>')
+T_ITEM_NOCASE = cooked('<dtml-in seq sort="sequence-item/nocase"><dtml-call "rec(_[\'sequence-item\'])"></dtml-in>')
+
+
+def make_item_options(n):
+    """ordering by the element itself combined with options: sort=sequence-item/cmp/desc and sort=/cmp/desc are the same request"""
+    def ob(a: int, b: int, c: int, named: bool) -> bool:
+        vals = [a, b, c][:n]
+        seen = []
+        (T_ITEM_DESC if named else T_EMPTY_DESC)(seq=list(vals), rec=seen.append)
+        exp = stable_sorted(list(range(n)), lambda x, y: vals[x] > vals[y])
+        if len(seen) != n:
+            return False
+        for i in range(n):
+            if seen[i] != vals[exp[i]]:
+                return False
+        words = [WORDS[pick(x, len(WORDS))] for x in vals]
+        seen2 = []
+        T_ITEM_NOCASE(seq=list(words), rec=seen2.append)
+        exp2 = stable_sorted(list(range(n)), lambda x, y: words[x].lower() < words[y].lower())
+        return seen2 == [words[i] for i in exp2]
+    ob.__name__ = 'ob_item_options_%d' % n
+    return ob
+
+
+OBLIGATIONS.append(Ob('item_sort_with_options_n3', make_item_options(3), ['0 <= a < 4', '0 <= b < 4', '0 <= c < 4'], timeout=tier(250, 900), data='3 int elements 0..3 (also used as indexes into the word pool)',
+                      selectors='sort="sequence-item/cmp/desc" vs sort="/cmp/desc"; sort="sequence-item/nocase" over words'))
